@@ -74,7 +74,14 @@ def phase(n_quick, n_thorough, body, name="corpus"):
         from vmon.monitors import LOG
         n = n_quick if ctx.tier == "quick" else n_thorough
         hashes, shapes, samples = [], {}, []
+        import time as _t
+        t0 = _t.time()
+        budget = float(os.environ.get("VERIF_PHASE_BUDGET_S") or (30 if ctx.tier == "quick" else 150))
+        done = 0
         for k in range(ctx.shard, n, ctx.nshards):
+            if _t.time() - t0 > budget:
+                break
+            done += 1
             rng = random.Random(f"{ctx.seed}:{ctx.prop}:{name}:{k}")
             n0 = len(LOG.viol)
             desc, nontrivial = body(rng, k)
@@ -86,6 +93,6 @@ def phase(n_quick, n_thorough, body, name="corpus"):
             shapes[key] = shapes.get(key, 0) + 1
             if len(samples) < 1:
                 samples.append({"corpus_case": desc})
-        return {"evaluations": len(range(ctx.shard, n, ctx.nshards)), "hashes": hashes, "shapes": shapes, "samples": samples}
+        return {"evaluations": done, "hashes": hashes, "shapes": shapes, "samples": samples}
     fn.all_shards = True
     return fn
